@@ -262,6 +262,9 @@ def unit_cmds(u, b, out):
         # (their contracts in executable form) and the harness asserts the postconditions
         for k, v in (u.get('stubs') or {}).items():
             gi += ['--replace-calls', '%s:%s' % (k, v)]
+        # ghost indices (vf_gk, vf_gv, ...) are file-scope variables: plain CBMC zero-initialises them (DFCC havocs statics
+        # itself), which would reduce every 'for the element at the ghost index' clause to index 0 - make them nondeterministic
+        gi += ['--nondet-static-matching', '.*vf_g[a-z][a-z0-9]?']
         gi += [ugb, igb]
         cb = ['cbmc', igb, '--json-ui', '--drop-unused-functions'] + NO_DEFAULTS + STD_CHECKS
         cb += ['--unwind', str(u.get('unwind', 5))]
